@@ -13,7 +13,29 @@ import (
 	"strings"
 
 	"github.com/mazrean/kessoku/internal/pkg/collection"
+	"golang.org/x/tools/go/types/typeutil"
 )
+
+// typeKeyer assigns one string key to all identical types. Dependencies are resolved
+// by type identity, not by spelling: byte and uint8, rune and int32, any and
+// interface{} (and other aliases) must find each other. The first spelling seen
+// becomes the key, so diagnostics keep naming types the way the user wrote them.
+type typeKeyer struct {
+	keys typeutil.Map
+}
+
+func (k *typeKeyer) key(t types.Type) string {
+	if v := k.keys.At(t); v != nil {
+		if s, ok := v.(string); ok {
+			return s
+		}
+	}
+
+	s := t.String()
+	k.keys.Set(t, s)
+
+	return s
+}
 
 // createASTTypeExpr creates an AST type expression from a types.Type and updates existingImports
 func createASTTypeExpr(pkg string, t types.Type, varPool *VarPool, imports map[string]*Import) (ast.Expr, error) {
@@ -312,6 +334,7 @@ func NewGraph(metaData *MetaData, build *BuildDirective, varPool *VarPool) (*Gra
 	}
 
 	fnProviderMap := make(map[string]*fnProvider)
+	typeKeys := &typeKeyer{}
 	declOrder := 0
 
 	// First pass: Process non-struct providers and assign DeclOrder
@@ -331,7 +354,7 @@ func NewGraph(metaData *MetaData, build *BuildDirective, varPool *VarPool) (*Gra
 				if t == nil {
 					return nil, fmt.Errorf("provider has nil type at group %d, index %d", groupIndex, typeIndex)
 				}
-				key := t.String()
+				key := typeKeys.key(t)
 
 				if existing, ok := fnProviderMap[key]; ok {
 					// Allow the same provider to provide multiple types (e.g., concrete and interface)
@@ -359,7 +382,7 @@ func NewGraph(metaData *MetaData, build *BuildDirective, varPool *VarPool) (*Gra
 		}
 
 		// Find the provider that provides this struct type
-		structTypeKey := structProvider.StructType.String()
+		structTypeKey := typeKeys.key(structProvider.StructType)
 		if _, ok := fnProviderMap[structTypeKey]; !ok {
 			return nil, fmt.Errorf("no provider for struct type %s", structTypeKey)
 		}
@@ -376,7 +399,7 @@ func NewGraph(metaData *MetaData, build *BuildDirective, varPool *VarPool) (*Gra
 			}
 			declOrder++
 
-			fieldTypeKey := field.Type.String()
+			fieldTypeKey := typeKeys.key(field.Type)
 			if _, ok := fnProviderMap[fieldTypeKey]; ok {
 				return nil, fmt.Errorf("multiple providers provide %s (field %s conflicts with existing provider)", fieldTypeKey, field.Name)
 			}
@@ -393,7 +416,7 @@ func NewGraph(metaData *MetaData, build *BuildDirective, varPool *VarPool) (*Gra
 	if build.Return.Type == nil {
 		return nil, fmt.Errorf("return type is nil")
 	}
-	returnTypeKey := build.Return.Type.String()
+	returnTypeKey := typeKeys.key(build.Return.Type)
 
 	returnProvider, ok := fnProviderMap[returnTypeKey]
 	if !ok {
@@ -441,7 +464,7 @@ func NewGraph(metaData *MetaData, build *BuildDirective, varPool *VarPool) (*Gra
 			if t == nil {
 				return nil, fmt.Errorf("provider has nil required type at index %d", i)
 			}
-			key := t.String()
+			key := typeKeys.key(t)
 			var (
 				n2       *node
 				srcIndex int
